@@ -1091,6 +1091,8 @@ void rfbNewFramebuffer(rfbScreenInfoPtr screen, char *framebuffer,
   rfbBool format_changed = FALSE;
   rfbClientIteratorPtr iterator;
   rfbClientPtr cl;
+  int old_width = screen->width, old_height = screen->height;
+  extern void rfbScalingSetup(rfbClientPtr cl, int width, int height);
 
   /* Lock out client reads. */
   iterator = rfbGetClientIterator(screen);
@@ -1136,6 +1138,34 @@ void rfbNewFramebuffer(rfbScreenInfoPtr screen, char *framebuffer,
     screen->cursorX = width - 1;
   if (screen->cursorY >= height)
     screen->cursorY = height - 1;
+
+  /* The scaled screens (scaledScreenNext chain) are copies of the OLD framebuffer: its
+   * size, its depth, its content.  Give every scaled client a scaled screen of the new
+   * framebuffer with the scale factor it had, and drop the stale copies. */
+  {
+    rfbScreenInfoPtr stale = screen->scaledScreenNext, next;
+    screen->scaledScreenNext = NULL;
+    iterator = rfbGetClientIterator(screen);
+    while ((cl = rfbClientIteratorNext(iterator)) != NULL) {
+      if (cl->scaledScreen != screen) {
+        int sw = cl->scaledScreen->width, sh = cl->scaledScreen->height;
+        int factor = 0, f;
+        /* the smallest factor that gives this scaled size for the old framebuffer */
+        for (f = 1; f <= old_width || f <= old_height; f++)
+          if (old_width / f == sw && old_height / f == sh) { factor = f; break; }
+        cl->scaledScreen = screen;
+        screen->scaledScreenRefCount++;
+        if (factor > 1 && width / factor > 0 && height / factor > 0)
+          rfbScalingSetup(cl, width / factor, height / factor);
+      }
+    }
+    rfbReleaseClientIterator(iterator);
+    for (; stale != NULL; stale = next) {
+      next = stale->scaledScreenNext;
+      free(stale->frameBuffer);
+      free(stale);
+    }
+  }
 
   /* For each client: */
   iterator = rfbGetClientIterator(screen);
